@@ -47,10 +47,11 @@ func TestMain(m *testing.M) {
 
 type bundleT struct {
 	Name       string `json:"name"`
-	SrcMode    string `json:"src_mode"` // "" | label | bundle
+	SrcMode    string `json:"src_mode"` // "" | label | bundle | both
 	SrcPath    string `json:"src_path"`
 	SrcRepo    string `json:"src_repo"`
-	SrcRef     string `json:"src_ref"` // label or bundle id, by SrcMode
+	SrcRef     string `json:"src_ref"`            // label or bundle id, by SrcMode
+	SrcRef2    string `json:"src_ref2,omitempty"` // mode both: the bundle id (SrcRef is the label), set on the structure as a YAML parameter file would
 	HasDest    bool   `json:"has_dest"`
 	DestRepo   string `json:"dest_repo"`
 	DestMsg    string `json:"dest_msg"`
@@ -66,9 +67,10 @@ type dbT struct {
 	DestMsg    string `json:"dest_msg"`
 	DestLabel  string `json:"dest_label"`
 	DestIDFile string `json:"dest_id_file"` // accepted by the API, not transported by the encoder
-	SrcMode    string `json:"src_mode"`     // "" | label | bundle
+	SrcMode    string `json:"src_mode"`     // "" | label | bundle | both
 	SrcRepo    string `json:"src_repo"`
 	SrcRef     string `json:"src_ref"`
+	SrcRef2    string `json:"src_ref2,omitempty"` // mode both: the bundle id (SrcRef is the label)
 }
 
 type caseT struct {
@@ -110,7 +112,7 @@ func (c caseT) allStrings() []string {
 		for _, b := range c.Bundles {
 			s = append(s, b.Name)
 			if b.SrcMode != "" {
-				s = append(s, b.SrcPath, b.SrcRepo, b.SrcRef)
+				s = append(s, b.SrcPath, b.SrcRepo, b.SrcRef, b.SrcRef2)
 			}
 			if b.HasDest {
 				s = append(s, b.DestRepo, b.DestMsg, b.DestPath)
@@ -123,7 +125,7 @@ func (c caseT) allStrings() []string {
 	for _, d := range c.DBs {
 		s = append(s, d.Name, strconv.Itoa(d.Port), d.DestRepo, d.DestMsg, d.DestLabel, d.DestIDFile)
 		if d.SrcMode != "" {
-			s = append(s, d.SrcRepo, d.SrcRef)
+			s = append(s, d.SrcRepo, d.SrcRef, d.SrcRef2)
 		}
 	}
 	return s
@@ -141,6 +143,9 @@ func (c *caseT) valueSlots() []*string {
 			if b.SrcMode != "" {
 				add(&b.SrcPath, &b.SrcRepo, &b.SrcRef)
 			}
+			if b.SrcMode == "both" {
+				add(&b.SrcRef2)
+			}
 			if b.HasDest {
 				add(&b.DestRepo, &b.DestMsg, &b.DestPath)
 			}
@@ -153,6 +158,9 @@ func (c *caseT) valueSlots() []*string {
 			add(&d.DestRepo, &d.DestMsg, &d.DestLabel, &d.DestIDFile)
 			if d.SrcMode != "" {
 				add(&d.SrcRepo, &d.SrcRef)
+			}
+			if d.SrcMode == "both" {
+				add(&d.SrcRef2)
 			}
 		}
 	}
@@ -204,6 +212,11 @@ func (c caseT) expected() map[string]map[string]string {
 				putNonEmpty(m, "sp", b.SrcPath)
 				putNonEmpty(m, "sr", b.SrcRepo)
 				putNonEmpty(m, "sb", b.SrcRef)
+			case "both":
+				putNonEmpty(m, "sp", b.SrcPath)
+				putNonEmpty(m, "sr", b.SrcRepo)
+				putNonEmpty(m, "sl", b.SrcRef)
+				putNonEmpty(m, "sb", b.SrcRef2)
 			}
 			if b.HasDest {
 				putNonEmpty(m, "dp", b.DestPath)
@@ -234,6 +247,10 @@ func (c caseT) expected() map[string]map[string]string {
 		case "bundle":
 			putNonEmpty(m, "sr", d.SrcRepo)
 			putNonEmpty(m, "sb", d.SrcRef)
+		case "both":
+			putNonEmpty(m, "sr", d.SrcRepo)
+			putNonEmpty(m, "sl", d.SrcRef)
+			putNonEmpty(m, "sb", d.SrcRef2)
 		}
 		out[pgDBPref+d.Name] = m
 	}
@@ -377,7 +394,7 @@ func encode(c caseT) outcome {
 		for _, b := range c.Bundles {
 			opts := []param.FUSEParamsBDOption{param.BDName(b.Name)}
 			switch b.SrcMode {
-			case "label":
+			case "label", "both":
 				opts = append(opts, param.BDSrcByLabel(b.SrcPath, b.SrcRepo, b.SrcRef))
 			case "bundle":
 				opts = append(opts, param.BDSrcByBundleID(b.SrcPath, b.SrcRepo, b.SrcRef))
@@ -393,6 +410,11 @@ func encode(c caseT) outcome {
 			}
 			if err := fp.AddBundle(opts...); err != nil {
 				return outcome{buildErr: fmt.Errorf("AddBundle(%q): %v", b.Name, err)}
+			}
+			if b.SrcMode == "both" {
+				// the option API refuses label + bundle id; a YAML parameter file (cmd/sidecar_param unmarshals
+				// straight into the structure) can carry both, and every parameter given must be transported
+				fp.Bundles[len(fp.Bundles)-1].SrcBundle = b.SrcRef2
 			}
 		}
 		env, err := param.FUSEParamsToEnvVars(fp)
@@ -413,13 +435,16 @@ func encode(c caseT) outcome {
 			opts = append(opts, param.DBDestBundleIDFile(d.DestIDFile))
 		}
 		switch d.SrcMode {
-		case "label":
+		case "label", "both":
 			opts = append(opts, param.DBSrcByLabel(d.SrcRepo, d.SrcRef))
 		case "bundle":
 			opts = append(opts, param.DBSrcByBundle(d.SrcRepo, d.SrcRef))
 		}
 		if err := pp.AddDatabase(opts...); err != nil {
 			return outcome{buildErr: fmt.Errorf("AddDatabase(%q): %v", d.Name, err)}
+		}
+		if d.SrcMode == "both" {
+			pp.Databases[len(pp.Databases)-1].SrcBundle = d.SrcRef2
 		}
 	}
 	env, err := param.PGParamsToEnvVars(pp)
@@ -576,7 +601,7 @@ func drawName(t *rapid.T, class string, i int, label string) string {
 }
 
 func drawSrcMode(t *rapid.T, label string) string {
-	return rapid.SampledFrom([]string{"", "label", "bundle"}).Draw(t, label)
+	return rapid.SampledFrom([]string{"", "label", "bundle", "", "label", "bundle", "both"}).Draw(t, label)
 }
 
 // (rapid's integer generators favour small values: probabilities are spelled out as sample lists)
@@ -607,6 +632,9 @@ func drawBase(t *rapid.T) caseT {
 				b.SrcPath = drawOpt(t, c.Class, l+"sp")
 				b.SrcRepo = drawOpt(t, c.Class, l+"sr")
 				b.SrcRef = drawOpt(t, c.Class, l+"sref")
+				if b.SrcMode == "both" {
+					b.SrcRef2 = drawOpt(t, c.Class, l+"sref2")
+				}
 			}
 			b.HasDest = rapid.Bool().Draw(t, l+"hasdest")
 			if b.HasDest {
@@ -643,6 +671,9 @@ func drawBase(t *rapid.T) caseT {
 		if d.SrcMode != "" {
 			d.SrcRepo = drawOpt(t, c.Class, l+"sr")
 			d.SrcRef = drawOpt(t, c.Class, l+"sref")
+			if d.SrcMode == "both" {
+				d.SrcRef2 = drawOpt(t, c.Class, l+"sref2")
+			}
 		}
 		c.DBs = append(c.DBs, d)
 	}
